@@ -8,6 +8,7 @@ import (
 	"math/rand"
 	"os"
 	"path/filepath"
+	"runtime"
 	"runtime/debug"
 	"strconv"
 	"testing"
@@ -172,7 +173,9 @@ func registerReplay[C any](property, sub string, check func(C, *Rec) error) {
 		if err := json.Unmarshal(raw, &c); err != nil {
 			return fmt.Errorf("can not decode case: %v", err)
 		}
-		return safeCheck(check, c, newRec())
+		return timedCheck(check, c, newRec(), func(msg string) {
+			fmt.Printf("REPLAY-FAILS property=%s sub=%s: %s\n", property, sub, firstLines(msg, 2))
+		})
 	}
 }
 
@@ -184,6 +187,37 @@ func safeCheck[C any](check func(C, *Rec) error, c C, rec *Rec) (err error) {
 		}
 	}()
 	return check(c, rec)
+}
+
+// caseTimeout: a generated case takes milliseconds to a few seconds; one that has not returned after this long (two orders of
+// magnitude more) is a call of the library that does not come back (deadlock, endless loop). The watchdog can not interrupt
+// it, so it reports the case and ends the process; the driver confirms by replaying the case, which must hang again.
+func caseTimeout() time.Duration {
+	return time.Duration(envInt("VERIF_CASE_TIMEOUT_S", 180)) * time.Second
+}
+
+var errHang = fmt.Errorf("the case did not return")
+
+// timedCheck runs safeCheck under the watchdog. onHang is called (once) before the process exits.
+func timedCheck[C any](check func(C, *Rec) error, c C, rec *Rec, onHang func(msg string)) error {
+	done := make(chan error, 1)
+	go func() { done <- safeCheck(check, c, rec) }()
+	select {
+	case err := <-done:
+		return err
+	case <-time.After(caseTimeout()):
+		msg := fmt.Sprintf("the library call did not return within %v (deadlock or endless loop); goroutines:\n%s", caseTimeout(), firstLines(allStacks(), 60))
+		onHang(msg)
+		fmt.Println("HANG: " + firstLines(msg, 3))
+		os.Exit(1)
+		return errHang
+	}
+}
+
+func allStacks() string {
+	buf := make([]byte, 1<<16)
+	n := runtime.Stack(buf, true)
+	return string(buf[:n])
 }
 
 // runProp drives one generator/check pair with rapid. quick and thoroughChecks are the numbers of cases per
@@ -234,7 +268,10 @@ func runProp[C any](t *testing.T, property, sub string, quickChecks, thoroughChe
 				VerifSeed: verifSeed, RapidSeed: seed, Case: mustJSON(c), Failure: "process died while executing this case"})
 		}
 		rec := newRec()
-		err := safeCheck(check, c, rec)
+		err := timedCheck(check, c, rec, func(msg string) {
+			writeJSON(filepath.Join(dir, "fail-"+base+".json"), &failure{Property: property, Sub: sub, Tier: tier(), VerifSeed: verifSeed,
+				RapidSeed: seed, Case: mustJSON(c), Failure: msg})
+		})
 		if lastFail == nil {
 			// only cases of the search phase are counted, not the shrinker's re-executions
 			st.Evaluations++
